@@ -166,9 +166,16 @@ def _set_line(rng, tables):
                        "INSERT INTO t VALUES (1, 'a');", "DELETE FROM t;"])
 
 
+ERROR_SHAPES = ["CREATE FOO BAR baz;", "CREATE TABLE (;", "ALTER SESSION xx yy zz;",
+                "CREATE TABLE t ( a int,, );", "DROP TABLE IF EXISTS x;", "CREATE TABLE x ( a int b c d e );",
+                # a complete statement followed by junk: the error is met in a state that could also have accepted the end of input
+                "CREATE TABLE broken (a int) PRIMARY;", "CREATE TABLE broken2 (a int) ) ;", "CREATE SEQUENCE s1 START 1 FOO BAR;",
+                "CREATE TABLE t3 (a int) COMMENT;", "ALTER TABLE x ADD ;", "CREATE TYPE ty AS ENUM ('a') garbage;",
+                "CREATE SCHEMA s9 s10 s11;", "CREATE INDEX i1 ON t (a) (b);"]
+
+
 def _unsupported(rng, tables):
-    return rng.choice(["CREATE FOO BAR baz;", "CREATE TABLE (;", "ALTER SESSION xx yy zz;",
-                       "CREATE TABLE t ( a int,, );", "DROP TABLE IF EXISTS x;", "CREATE TABLE x ( a int b c d e );"])
+    return rng.choice(ERROR_SHAPES)
 
 
 def _regex_table(rng, tables):
